@@ -198,8 +198,20 @@ def random_query(rng, kinds=None, values=None, n_entities=None, depth=3, n_preds
         pname = fresh_ident(rng, used, ["isX", "p", "pred", "check", "p2", "has", "q"])
         arity = rng.choice([1, 1, 2]) if len(q.from_items) > 1 else 1
         pks = rng.sample([k for k, _ in q.from_items], min(arity, len(q.from_items)))
-        pused = set(used)
-        params = [(k, fresh_ident(rng, pused)) for k in pks]
+        # formal names are arbitrary identifiers: they may coincide with FROM aliases (of any position)
+        # or with formals of other predicates, only not with each other, kind names or predicate names
+        pused = set(kinds) | {p.name for p in q.preds} | {pname}
+        alias_names = [a for _, a in q.from_items]
+        params = []
+        for k in pks:
+            if rng.random() < 0.35:
+                cand = [a for a in alias_names if a not in pused]
+                if cand:
+                    n = rng.choice(cand)
+                    pused.add(n)
+                    params.append((k, n))
+                    continue
+            params.append((k, fresh_ident(rng, pused)))
 
         def patom(params=params):
             if len(params) == 2 and rng.random() < 0.3:
